@@ -166,6 +166,8 @@ def oracle(fn: str, kw: dict, floored=False):
         return None
     if fn == "multiclass_binned_auroc" and not floored:
         return None     # the code's own output is not a per-threshold-counting quantity of the classes (known finding)
+    if fn == "binary_binned_auprc" and kw.get("num_tasks", 1) == 1 and kw["input"].ndim == 2 and kw["input"].shape[0] != 1:
+        return None     # (rows, n) with num_tasks=1 and rows != 1 is rejected (it used to be scored on row 0 only: fixed in /repo)
     probs = problems(fn, kw)
     if kind == "precision_recall_curve":
         cs = [o_curve(xs, ys, t) for xs, ys in probs]
